@@ -9,6 +9,8 @@ import (
 	"math"
 	"sort"
 	"strings"
+	"sync/atomic"
+	"time"
 
 	"github.com/ollama/ollama/kvcache"
 	"github.com/ollama/ollama/ml"
@@ -35,6 +37,11 @@ type scripted struct {
 	vocab int32
 	eos   int32 // -1: never
 	trace []fwdRec
+	// concurrent stage: called at the start of every Forward (inside processBatch, under s.mu); no trace is kept
+	onForward func(seqs []int)
+	// concurrent stage: requests of a burst meet in Encode (NewSequence, just before the slot selection) and go on together
+	barrierN   int32
+	barrierCnt atomic.Int32
 }
 
 // hashVis is the "network": a function of the visible history only.
@@ -47,6 +54,9 @@ func hashVis(vis [][2]int, vocab int32) int32 {
 }
 
 func (m *scripted) Forward(ctx ml.Context, batch input.Batch) (ml.Tensor, error) {
+	if m.onForward != nil {
+		m.onForward(batch.Sequences)
+	}
 	toksF := batch.Inputs.(*fakeTensor).data
 	n := len(toksF)
 	rec := fwdRec{Pos: append([]int32{}, batch.Positions...), Seqs: append([]int{}, batch.Sequences...), Outs: append([]int32{}, batch.Outputs...)}
@@ -112,7 +122,9 @@ func (m *scripted) Forward(ctx ml.Context, batch input.Batch) (ml.Tensor, error)
 		rec.Chosen = append(rec.Chosen, t)
 		logits[oi*int(m.vocab)+int(t)] = 1
 	}
-	m.trace = append(m.trace, rec)
+	if m.onForward == nil {
+		m.trace = append(m.trace, rec)
+	}
 	return ctx.FromFloatSlice(logits, int(m.vocab), len(batch.Outputs))
 }
 
@@ -147,6 +159,12 @@ func (m *scripted) PostTokenize(inputs []input.Input) ([]input.Input, error) {
 
 // text: token t <-> letter 'a'+t
 func (m *scripted) Encode(s string, addSpecial bool) ([]int32, error) {
+	if n := atomic.LoadInt32(&m.barrierN); n > 0 {
+		m.barrierCnt.Add(1)
+		deadline := time.Now().Add(50 * time.Millisecond)
+		for m.barrierCnt.Load() < n && time.Now().Before(deadline) {
+		}
+	}
 	var out []int32
 	for _, r := range s {
 		if r < 'a' || r > 'z' {
@@ -178,16 +196,56 @@ type limitedCache struct {
 	kvcache.Cache
 	noPartial bool
 	noResume  bool // CanResume always answers false (a cache that can only be continued after a full reload)
+	// concurrent stage: every cache management call must be serialized by the server's lock (cache.go: "Operations on
+	// InputCacheSlot (including finding one through LoadCacheSlot) require a lock ... that serializes these operations
+	// with each other and processBatch"); overlapping calls are counted, Remove lingers a little to make an overlap visible
+	watch    bool
+	inOp     atomic.Int32
+	overlaps atomic.Int32
+}
+
+func (l *limitedCache) enter(linger bool) {
+	if !l.watch {
+		return
+	}
+	if l.inOp.Add(1) > 1 {
+		l.overlaps.Add(1)
+	}
+	if linger {
+		time.Sleep(200 * time.Microsecond)
+	}
+}
+
+func (l *limitedCache) leave() {
+	if l.watch {
+		l.inOp.Add(-1)
+	}
 }
 
 func (l *limitedCache) CanResume(seq int, pos int32) bool {
+	l.enter(false)
+	defer l.leave()
 	if l.noResume {
 		return false
 	}
 	return l.Cache.CanResume(seq, pos)
 }
 
+func (l *limitedCache) CopyPrefix(srcSeq, dstSeq int, len int32) {
+	l.enter(true)
+	defer l.leave()
+	l.Cache.CopyPrefix(srcSeq, dstSeq, len)
+}
+
+func (l *limitedCache) StartForward(ctx ml.Context, batch input.Batch, reserve bool) error {
+	l.enter(false)
+	defer l.leave()
+	return l.Cache.StartForward(ctx, batch, reserve)
+}
+
 func (l *limitedCache) Remove(seq int, beginIndex, endIndex int32) error {
+	l.enter(true)
+	defer l.leave()
 	if l.noPartial && !(beginIndex == 0 && endIndex == math.MaxInt32) {
 		return errors.New("partial erase not supported")
 	}
